@@ -13,6 +13,7 @@
 package c17
 
 import (
+	"encoding/json"
 	"errors"
 	"fmt"
 	"math/rand/v2"
@@ -229,7 +230,7 @@ func newWorld(r *lib.Run, ro *router, org *origin, pool *dirPool, cfg config, li
 func (w *world) close(pool *dirPool) {
 	w.g.release()
 	// let the remover finish before the directory is recycled (bounded, no verdict)
-	deadline := time.Now().Add(10 * time.Second)
+	deadline := time.Now().Add(30 * time.Second)
 	for time.Now().Before(deadline) {
 		if w.g.before.Load() == w.g.after.Load() {
 			if o, _, err := w.measureOnce(w.srv.Cache, true); err != nil || (o.BacklogCount == 0 && w.g.before.Load() == w.g.after.Load()) {
@@ -299,7 +300,7 @@ func (w *world) observe(list bool) error {
 		w.cur = o
 		return nil
 	}
-	deadline := time.Now().Add(90 * time.Second)
+	deadline := time.Now().Add(240 * time.Second)
 	var lastMove = time.Now()
 	var lastAfter = w.g.after.Load()
 	for {
@@ -321,7 +322,14 @@ func (w *world) observe(list bool) error {
 		if a := w.g.after.Load(); a != lastAfter {
 			lastAfter, lastMove = a, time.Now()
 		}
-		if time.Now().After(deadline) || time.Since(lastMove) > 20*time.Second {
+		if time.Now().After(deadline) || time.Since(lastMove) > 60*time.Second {
+			w.g.mu.Lock()
+			gs := fmt.Sprintf("open=%v permits=%d parked=%d released=%v before=%d after=%d removed=%d", w.g.open, w.g.permits, w.g.parked, w.g.released, w.g.before.Load(), w.g.after.Load(), w.g.removedN.Load())
+			w.g.mu.Unlock()
+			b, _ := json.MarshalIndent(w.detail(map[string]any{"stuck_files": o.extra, "gate": gs, "state": o.summary(), "unregistered_events": w.ro.unregistered.Load()}), "", " ")
+			dir := filepath.Join(lib.VerifRoot(), "replays")
+			_ = os.MkdirAll(dir, 0o755)
+			_ = os.WriteFile(filepath.Join(dir, fmt.Sprintf("C17-inconclusive-%s-%s.json", w.cfg.ID, w.mode())), b, 0o644)
 			return fmt.Errorf("%w: files outside the index did not disappear with the gate open (%d files, %d bytes)", errInconclusive, o.BacklogCount, o.BacklogFiles)
 		}
 		time.Sleep(200 * time.Microsecond)
